@@ -1,4 +1,5 @@
 import PsV.Proofs.ConvSpec
+import PsV.Proofs.ConvEval
 /-!
 # C14 — convolution produces the true convolution with the unit-area kernel spline
 
@@ -215,5 +216,163 @@ theorem spec_pieces_are_cox_de_boor (t : Int → Rat) (j p i : Nat) (x : Rat) :
 
 example : ConvSpec.peval (ConvSpec.bpiece (fun n => ((n : Nat) : Rat)) 0 1 0) (1/2) = 1/2 := by
   simp [ConvSpec.bpiece, ConvSpec.peval, ConvSpec.padd, ConvSpec.pmulLin, ConvSpec.pscale]
+
+/-! ## unit area of the kernel, every `n ≥ 2` -/
+
+open ConvSpec in
+/-- **unit area, any kernel**: the normalised kernel `M = q/(y_q − y_0) · B_{0,q−1}(· | y)` that the specification
+integrates against has `∫ M = 1`, for every `q ≥ 1` (`n = q+1 ≥ 2` kernel knots) and strictly increasing knots.
+(Supersedes `unit_area_box`, which is the case `q = 1`.) -/
+theorem unit_area (y : Nat → Rat) (q : Nat) (hq : 1 ≤ q) (hy : ∀ a b, a < b → b ≤ q → y a < y b) :
+    kernelArea y q = 1 :=
+  kernelArea_one y q hq hy
+
+example : ConvSpec.kernelArea (fun i => ((i : Nat) : Rat)^2) 4 = 1 :=
+  unit_area _ 4 (by omega) (by
+    intro a b hab _
+    exact_mod_cast Nat.pow_lt_pow_left hab (by norm_num))
+
+open ConvSpec in
+/-- the normalised kernel is the Cox–de Boor M-spline: piece `b` of the specification's kernel is `q/(y_q − y_0)` times
+the shared Cox–de Boor recursion `PsV.Bind` of degree `q−1` with the indicator of interval `b` -/
+theorem kernel_is_cox_de_boor (t : Int → Rat) (q b : Nat) (x : Rat) :
+    peval (kpiece (fun n => t (n : Nat)) q b) x =
+      (q : Rat) / (t (q : Nat) - t (0 : Nat)) * Bind (fun k => decide (k = (b : Int))) t x (q-1) ((0 : Nat) : Int) :=
+  kpiece_eval_Bind t q b x
+
+example : ConvSpec.peval (ConvSpec.kpiece (fun n => ((n : Nat) : Rat)) 1 0) (1/2) = 1 := by
+  simp [ConvSpec.kpiece, ConvSpec.bpiece, ConvSpec.pscale, ConvSpec.peval]
+
+/-! ## divided differences: Leibniz, annihilation -/
+
+/-- Leibniz' rule for a linear factor (the recurrence behind both the Cox–de Boor recursion of the truncated-power
+representation and the degree count of the early exits) -/
+theorem divdiff_leibniz_linear (x f : Nat → Rat) (a : Rat) (n o : Nat)
+    (hd : ∀ i j, o ≤ i → i < j → j < o + (n+1) → x i ≠ x j) :
+    divdiff x (fun i => (x i - a) * f i) (n+1) o = (x (o+n) - a) * divdiff x f (n+1) o + divdiff x f n o :=
+  dd_leibniz_lin x f a n o hd
+
+example : divdiff (fun i => (i : Rat)) (fun i => ((i : Rat) - 5) * (i : Rat)) 3 0 = 1 := by
+  rw [divdiff_leibniz_linear (fun i => (i : Rat)) (fun i => (i : Rat)) 5 2 0
+    (by intro i j _ hij _; exact_mod_cast (Nat.ne_of_lt hij))]
+  simp [divdiff, Arith.div, Arith.sub]; norm_num
+
+/-! ## `convoluted_blossom` in closed form -/
+
+/-- **closed form of `convoluted_blossom`** (exact arithmetic): including both early exits, the routine returns
+`(x_{nx-1} − x_0) · [x_0..x_{nx-1}]_a [y_0..y_{ny-1}]_b g(x_a + y_b)` with `g(s) = (s − z)_+^0 · Π_m (s − bags_m)`,
+whenever the nodes are strictly increasing, there are fewer bags than the two differences can see
+(`nbags + 3 ≤ nx + ny`; `convolve` calls it with equality) and every node sum strictly between `z` and the last bag
+is one of the bags (true for consecutive knots `z = ρ_i`, `bags = ρ_{i+1..}` of the sorted pairwise sums). -/
+theorem blossom_closed_form (x : Nat → Rat) (nx : Nat) (y : Nat → Rat) (ny : Nat) (z : Rat) (bags : Nat → Rat) (nbags : Nat)
+    (hnx : 1 ≤ nx) (hny : 1 ≤ ny) (hdeg : nbags + 3 ≤ nx + ny)
+    (hx : ∀ a b, a < b → b < nx → x a < x b) (hy : ∀ a b, a < b → b < ny → y a < y b)
+    (hmem : ∀ a b, a < nx → b < ny → z < x a + y b → x a + y b < bags (nbags-1) → ∃ m, m < nbags ∧ x a + y b = bags m) :
+    convolutedBlossom x nx y ny z bags nbags =
+      (x (nx-1) - x 0) * dd2 x y (fun a b => blossomG z bags nbags (x a + y b)) nx 0 ny 0 :=
+  convolutedBlossom_eq x nx y ny z bags nbags hnx hny hdeg hx hy hmem
+
+/-- order 0 against the box: old knots 0,1; kernel 0,1; new knots 0,1,1,2; `z = ρ_0 = 0`, one bag `ρ_1 = 1` -/
+example : convolutedBlossom (fun a => ((a : Nat) : Rat)) 2 (fun b => ((b : Nat) : Rat)) 2 0 (fun _ => 1) 1 =
+    (1 - 0) * dd2 (fun a => ((a : Nat) : Rat)) (fun b => ((b : Nat) : Rat))
+      (fun a b => blossomG 0 (fun _ => 1) 1 (((a : Nat) : Rat) + ((b : Nat) : Rat))) 2 0 2 0 := by
+  have := blossom_closed_form (fun a => ((a : Nat) : Rat)) 2 (fun b => ((b : Nat) : Rat)) 2 0 (fun _ => 1) 1
+    (by omega) (by omega) (by omega)
+    (by intro a b hab _; exact_mod_cast hab) (by intro a b hab _; exact_mod_cast hab)
+    (by intro a b _ _ h1 h2
+        exfalso
+        have h3 : (0 : Rat) < ((a + b : Nat) : Rat) := by push_cast; exact h1
+        have h4 : ((a + b : Nat) : Rat) < 1 := by push_cast; exact h2
+        have h5 : 0 < a + b := by exact_mod_cast h3
+        have h6 : a + b < 1 := by exact_mod_cast h4
+        omega)
+  simpa using this
+
+/-! ## the specification's integral in closed form -/
+
+/-- **the specification's convolution integral in closed form**: for every order `p`, every kernel on `q'+2 ≥ 2`
+strictly increasing knots, strictly increasing table knots and `x ≥ τ_0 + y_0`,
+`∫ f(x−t) M(t) dt = Σ_j c_j (τ_{j+p+1} − τ_j) · (q'+1)! p!/(p+q'+1)! · [τ_j..τ_{j+p+1}] [y_0..y_{q'+1}] (τ_m + y_r − x)_+^{p+q'+1}`. -/
+theorem spec_conv_closed_form (τ : Nat → Rat) (nknots p naxes : Nat) (c : Nat → Rat) (y : Nat → Rat) (q' : Nat) (x : Rat)
+    (hn : naxes + p + 1 = nknots)
+    (hτ : ∀ a b, a < b → b < nknots → τ a < τ b)
+    (hy : ∀ a b, a < b → b ≤ q' + 1 → y a < y b)
+    (hx : τ 0 + y 0 ≤ x) :
+    ConvSpec.conv1 τ nknots p naxes c y (q'+1) x =
+      ∑ j ∈ Finset.range naxes, c j * ((τ (j+p+1) - τ j) *
+        (((q':Rat) + 1) * ((p.factorial : Rat) * q'.factorial / (p + q' + 1).factorial)) *
+        dd2 τ y (fun m r => pospow (τ m + y r - x) (p + q' + 1)) (p+2) j (q'+2) 0) :=
+  conv1_closed τ nknots p naxes c y q' x hn hτ hy hx
+
+example : ∃ v : Rat, ConvSpec.conv1 (fun i => ((i : Nat) : Rat)) 3 0 2 (fun _ => 1) (fun i => ((i : Nat) : Rat)) 1 (3/2) = v :=
+  ⟨_, spec_conv_closed_form (fun i => ((i : Nat) : Rat)) 3 0 2 (fun _ => 1) (fun i => ((i : Nat) : Rat)) 0 (3/2) rfl
+    (by intro a b hab _; exact_mod_cast hab) (by intro a b hab _; exact_mod_cast hab) (by norm_num)⟩
+
+/-! ## Strøm's identity -/
+
+/-- **Strøm's identity in one dimension, every order, every kernel** (coinciding pairwise sums allowed: `rho` is only
+required to be sorted, to contain every pairwise sum and to start at `τ_0 + y_0`): for every old coefficient vector `c`,
+the coefficients `Σ_j trafo[i,j]·c_j` that `convolve` stores, taken against the polynomial piece `left` of the new basis
+(degree `p+q`), equal the specification's convolution integral at every `x ∈ [ρ_left, ρ_{left+1}]`. -/
+theorem strom_identity_1d (knots ck rho : List Rat) (p q' naxes : Nat) (c : Nat → Rat) (left : Nat) (t : Int → Rat) (x norm : Rat)
+    (hck : ck.length = q' + 2) (hn : naxes + p + 1 = knots.length)
+    (hτ : ∀ a b, a < b → b < knots.length → getK knots a < getK knots b)
+    (hy : ∀ a b, a < b → b < ck.length → getK ck a < getK ck b)
+    (hsorted : rho.Pairwise (· ≤ ·))
+    (hmem : ∀ a b, a < knots.length → b < ck.length → getK knots a + getK ck b ∈ rho)
+    (hlow : getK knots 0 + getK ck 0 ≤ getK rho 0)
+    (hleft : left + 1 < rho.length) (hne : getK rho left < getK rho (left+1))
+    (hx1 : getK rho left ≤ x) (hx2 : x ≤ getK rho (left+1))
+    (ht : ∀ i : Nat, i < rho.length → t (i : Int) = getK rho i)
+    (hnorm : norm = (((q'+1).factorial * p.factorial : Nat) : Rat) / (((p + 1 + (q'+1) - 1).factorial : Nat) : Rat)) :
+    ∑ i ∈ Finset.range (rho.length - (p + (q'+1)) - 1),
+        (∑ j ∈ Finset.range naxes, trafoEntry knots ck rho (p+1) (q'+1) norm i j * c j) * Bp t x (left : Int) (p + (q'+1)) (i : Int)
+      = ConvSpec.conv1 (getK knots) knots.length p naxes c (getK ck) (q'+1) x :=
+  strom_core knots ck rho p q' naxes c left t x norm hck hn hτ hy hsorted hmem hlow hleft hne hx1 hx2 ht hnorm
+
+/-- **Strøm's identity for the table returned by `convolve`, slice by slice, any number of dimensions**: with `i`, `k`
+the combined indices of the dimensions before / after `dim`, the stored coefficients `R.coef[i, ·, k]` against the
+shared Cox–de Boor specification `Bsel` of the new dimension (order `order+n−1`, knots = sorted pairwise sums, C01
+convention) are the specification's convolution integral of the old slice `T.coef[i, ·, k]`, at every point of the
+new knot range.  Hypotheses: knots of `dim` and of the kernel strictly increasing, `n ≥ 2`, factorials fit
+(`order + n − 1 ≤ 12`), at least one coefficient. -/
+theorem blossom_is_convolution_slices (T : CTable Rat) (dim : Nat) (ck : List Rat) (d : CDim Rat)
+    (hd : T.dims[dim]? = some d) (hk : d.knots.length = d.nknots) (hnax : d.naxes + d.order + 1 = d.nknots)
+    (hn1 : 1 ≤ d.naxes)
+    (hτ : d.knots.Pairwise (· < ·)) (hy : ck.Pairwise (· < ·)) (hq : 2 ≤ ck.length)
+    (h12 : d.order + ck.length - 1 ≤ 12) :
+    ∃ R d', convolve T dim ck = some R ∧ R.dims[dim]? = some d' ∧
+      d'.knots = sortKnots (pairSums d.knots ck) ∧ d'.order = d.order + ck.length - 1 ∧
+      d'.nknots = d'.knots.length ∧ d'.naxes + d'.order + 1 = d'.nknots ∧ 1 ≤ d'.naxes ∧
+      ∀ i k, i < prodL ((T.dims.map (·.naxes)).take dim) → k < prodL ((T.dims.map (·.naxes)).drop (dim+1)) →
+      ∀ (x : Rat), getK d'.knots 0 ≤ x → x ≤ getK d'.knots (d'.nknots - 1) →
+        ∑ l ∈ Finset.range d'.naxes,
+            R.coef.getD (i * prodL ((T.dims.map (·.naxes)).drop (dim+1)) * d'.naxes
+              + l * prodL ((T.dims.map (·.naxes)).drop (dim+1)) + k) 0 * Bsel (ConvSpec.toDim d') x 0 l
+          = ConvSpec.conv1 (getK d.knots) d.nknots d.order d.naxes
+              (fun j => T.coef.getD (i * prodL ((T.dims.map (·.naxes)).drop (dim+1)) * d.naxes
+                + j * prodL ((T.dims.map (·.naxes)).drop (dim+1)) + k) 0)
+              (getK ck) (ck.length - 1) x :=
+  convolve_slices_spec T dim ck d hd hk hnax hn1 hτ hy hq h12
+
+/-- the hypotheses are satisfiable: order 1 on knots 0,1,2,4 (two coefficients) convolved with the kernel on 0,1,3 -/
+example : ∃ R d', convolve (⟨[⟨1, 4, 2, 1, [0, 1, 2, 4], 0, 4⟩], #[1, 2]⟩ : CTable Rat) 0 [0, 1, 3] = some R ∧
+    R.dims[0]? = some d' ∧ d'.order = 3 :=
+  let ⟨R, d', h, hd', _, ho, _⟩ := blossom_is_convolution_slices (⟨[⟨1, 4, 2, 1, [0, 1, 2, 4], 0, 4⟩], #[1, 2]⟩ : CTable Rat) 0
+    [0, 1, 3] ⟨1, 4, 2, 1, [0, 1, 2, 4], 0, 4⟩ rfl rfl rfl (by decide) (by decide) (by decide) (by decide) (by decide)
+  ⟨R, d', h, hd', ho⟩
+
+/-! ## the new knot vector is *the* sorted arrangement of the pairwise sums -/
+
+/-- whatever (stable or unstable) sort is used: any ascending permutation of the pairwise sums is the knot vector the
+model produces (`std::sort` in the C++, merge sort in the model) -/
+theorem conv_knots_canonical (ks ck l : List Rat) (hp : l.Perm (pairSums ks ck)) (hs : l.Pairwise (· ≤ ·)) :
+    sortKnots (pairSums ks ck) = l :=
+  List.Perm.eq_of_pairwise (fun _ _ _ _ h1 h2 => le_antisymm h1 h2) (sortKnots_sorted _) hs
+    ((sortKnots_perm _).trans hp.symm)
+
+example : sortKnots (pairSums ([0, 1] : List Rat) [0, 1]) = [0, 1, 1, 2] :=
+  conv_knots_canonical [0, 1] [0, 1] [0, 1, 1, 2]
+    (by simp [pairSums, Arith.add]; norm_num) (by decide)
 
 end PsV
